@@ -324,3 +324,19 @@ Proof.
   destruct (Hs out Hout) as (cc & Hd). exists cc.
   unfold hstep_run. rewrite Emode, Ho. unfold HL; cbn [hs_mode]. auto.
 Qed.
+
+(* which files can have a write in flight: on a disk satisfying the structural
+   invariant of crash_refinement, a listed segment whose file has a pending
+   batch is the unsealed tail -- the file Open hands to RecoverTail.  (Unlisted
+   files are deleted by Open without being read.)  So of the files bscrub
+   touches after a crash, the only one that is ever read is the recovered tail. *)
+Lemma pending_only_tail c nb d ps n f s :
+  DIs c nb d -> dk_meta d = Some ps -> lookup n (dk_files d) = Some f -> df_pend f <> None ->
+  In s (ps_segs ps) -> name_of s = n -> si_sealed s = false /\ tail_info (ps_segs ps) = Some s.
+Proof.
+  intros (_ & HD) Hm Hl Hp Hin Hn. rewrite Hm in HD. destruct HD as (_ & _ & S & t & Hsegs & _ & _ & Hso & Htok).
+  rewrite Hsegs in Hin |- *. rewrite tail_info_app. apply in_app_or in Hin as [Hin|[<-|[]]].
+  - exfalso. rewrite Forall_forall in Hso. destruct (Hso s Hin) as (_ & _ & f' & Hl' & _ & Hp' & _).
+    rewrite Hn, Hl in Hl'. inversion Hl'; subst f'. contradiction.
+  - split; [apply Htok|reflexivity].
+Qed.
